@@ -229,6 +229,13 @@ def raises_in_branch(cfg, test_node, label="t"):
         while cur is not None and seen < 5:
             if cur.kind == "stmt" and isinstance(cur.ast, ast.Raise):
                 return cur
+            if cur.kind == "test" and cur.stmt is test_node.stmt:
+                # a further conjunct of the same condition: follow it when one side raises
+                for l2 in ("t", "f"):
+                    r = raises_in_branch(cfg, cur, l2) if seen < 4 else None
+                    if r is not None:
+                        return r
+                break
             if cur.kind == "stmt" and isinstance(cur.ast, (ast.Assign, ast.Expr)) and len(cur.succ) >= 1:
                 nxt = [x for l2, x in cur.succ if l2 == "n"]
                 cur = nxt[0] if nxt else None
